@@ -6,11 +6,12 @@
 #[verifier::external_body]
 pub struct ExN(N);
 #[verifier::external_type_specification]
-#[verifier::external_body]
 pub struct ExCustomFormat(CustomFormat);
 #[verifier::external_type_specification]
-#[verifier::external_body]
 pub struct ExTplLitType(TplLitType);
+#[verifier::external_type_specification]
+#[verifier::accept_recursive_types]
+pub struct ExTplLitTypeItem(TplLitTypeItem);
 
 // Transparent external datatypes (real definitions below, outside verus!): needed because this
 // Verus cannot attach a spec to a *derived* non-Copy Clone impl inside verus!.
@@ -32,8 +33,10 @@ pub struct SemTypeContext { _p: core::marker::PhantomData<()> }
 pub trait FlatLit {
     spec fn flat_lit(&self) -> bool;
 }
-// a template-literal type that is a single string constant (uninterpreted: TplLitType is opaque here)
-pub uninterp spec fn tpl_is_single_const(t: TplLitType) -> bool;
+// a template-literal type that is a single string constant
+pub open spec fn tpl_is_single_const(t: TplLitType) -> bool {
+    t.0@.len() == 1 && (match t.0@[0] { TplLitTypeItem::StringConst(_) => true, _ => false })
+}
 impl FlatLit for NumberRepresentationOrFormat {
     open spec fn flat_lit(&self) -> bool { match *self { NumberRepresentationOrFormat::Lit(_) => true, _ => false } }
 }
